@@ -72,7 +72,7 @@ func genForeign(r *rand.Rand, i int) foreignHello {
 		cs = be16(cs, []int{0x1301, 0x1302, 0x1303, 0xc02f, 0xc030, 0xc02b, 0x009c, 0x00ff, grease(), 0xcca8}[r.Intn(10)])
 	}
 	b = vec16(b, cs)
-	b = vec8(b, []byte{0})
+	b = vec8(b, [][]byte{{0}, {0}, {1, 0}, {0, 1}}[r.Intn(4)]) // legacy_compression_methods: TLS <= 1.2 clients may list more than "null"
 	// extensions
 	type ext struct {
 		t int
